@@ -734,7 +734,22 @@ func TestC16Enumerator(t *testing.T) {
 				if rooted {
 					args = append(args, "-r")
 				}
-				res := cli.Run(cli.Scratch(), "", args...)
+				// every other enumeration is written with -o to a file (an older, longer file is in its way)
+				dir := cli.Scratch()
+				toFile := (n+map[bool]int{false: 0, true: 1}[rooted])%2 == 0
+				if toFile {
+					args = append(args, "-o", "topologies.nw")
+				}
+				res := cli.Run(dir, "", args...)
+				if toFile {
+					if strings.TrimSpace(res.Stdout) != "" && res.Code == 0 {
+						r.Fail(EnumCase{N: n, Rooted: rooted}, "gotree %v: told to write to a file and prints %q", args, firstLines(res.Stdout))
+						return
+					}
+					if res.Code == 0 {
+						res.Stdout = cli.Read(dir, "topologies.nw")
+					}
+				}
 				c := EnumCase{N: n, Rooted: rooted}
 				want := dfact(2*n - 5)
 				min := 3
